@@ -36,7 +36,7 @@ func init() {
 		Rule: "part 2 (engine 'proc': real kernel, real processes, lock-stepped): Execute() and Output() of the library start the harness' helper binary, which plays a generated script: writes to stdout/stderr in chunks, each followed by a wait until the pipe has been drained (so the chunks seen by os/exec's copier are the scripted ones), then exits with a code 0..255 or kills itself with a signal; with and without extra environment variables, with and without cancellation of the context at a scripted step; " +
 			"oracle: nil exactly when the exit status is 0, an error of context kind when cancelled; the start message first, exactly one success/failure message last, the child's lines per stream in between, complete and in order; Output() returns all of it. non-trivial = non-zero exit, signal, cancellation or a line cut by a chunk boundary; distinct = distinct scenario digest",
 		Real:        []string{"utils/subprocess (executor, command wrapper, monitoring, messaging, logging)", "utils/proc (error conversion)", "os/exec, the Linux kernel (pipes, signals, wait)"},
-		Stub:        []string{"the child: harness helper binary executing a generated script; chunking made reproducible by drain-synchronised writes", "nothing else: time is real, bounds are wall-clock (a call must return within 10 s)"},
+		Stub:        []string{"the child: harness helper binary executing a generated script; chunking made reproducible by drain-synchronised writes", "nothing else: time is real, bounds are wall-clock (a call must return within 20 s)"},
 		Assumptions: []string{"not simulated time: kernel scheduling between script steps is not controlled; end-state oracles only", "built with go1.26.8; go-deadlock detection disabled"},
 	})
 }
@@ -478,8 +478,8 @@ func runC18Process(rc *RunCtx) {
 	var r result
 	select {
 	case r = <-done:
-	case <-time.After(10 * time.Second):
-		res.Violate("blocked", "process|call-did-not-return", fmt.Sprintf("%s: the call did not return within 10 s", res.Config))
+	case <-time.After(20 * time.Second): // (the helper ends itself after 25 s: a call blocked on it would return then)
+		res.Violate("blocked", "process|call-did-not-return", fmt.Sprintf("%s: the call did not return within 20 s", res.Config))
 		return
 	}
 	res.SimNanos = int64(time.Since(startT))
